@@ -143,6 +143,7 @@ class C02(QProp):
     """Theorems (Props/C02.lean): `Compound::factor`, `+`, `-` and the `to` step accept two non-empty proportional compounds iff the specification's base dimensions agree, whatever the spelling, otherwise `illegalOperation` / `illegalCast`; a plain number adopts the unit in either order. Correspondence: pairs of random and respelled unit expressions, cancelling idioms, plus a sweep built from the human reference table only (`1 name^p to base-SI`)."""
     id = "C02"
     module = "Anything.Props.C02"
+    extra_modules = ["Anything.Props.QuantityQuery"]
     trusted = ["Spec.SI (dimension vectors, commensurability) is human input", "unit table extracted by the translator"]
 
     def cases(self, rng, tier):
@@ -185,6 +186,7 @@ class C03(QProp):
     """Theorems (Props/C03.lean): a conversion multiplies by scale(source)/scale(target) with the specification's exact scale (non-zero by a table fact re-checked every run): round trips, via an intermediate, linearity, prefix = power of ten, powers, products. Correspondence: every unit word as source and target, random commensurable pairs, prefixed temperature scales."""
     id = "C03"
     module = "Anything.Props.C03"
+    extra_modules = ["Anything.Props.QuantityQuery"]
     trusted = ["Spec.SI.scale over the extracted table", "unit table extracted by the translator"]
 
     def cases(self, rng, tier):
@@ -230,6 +232,7 @@ class C04(QProp):
     """Theorems (Props/C04.lean): `Compound::mul` with every iteration of `reconstruct` preserves base dimensions and SI value; `*`, `/`, `^` refine Spec.SI.qmul/qdiv/qpow; zero divisor is an error; x^0 is the dimensionless one; a power leaving the i32 range is an error. Correspondence: expression trees over quantities, SI value and dimensions compared whatever unit is displayed."""
     id = "C04"
     module = "Anything.Props.C04"
+    extra_modules = ["Anything.Props.QuantityQuery"]
     compare_unit = False
     trusted = ["Spec.SI over the extracted table", "unit table extracted by the translator"]
 
@@ -320,6 +323,26 @@ class C09(QProp):
             tgt = [(rng.choice(kel + aff), p)] + extra
             items.append((Q.Cast(Q.Qty(Q.small_value(rng), src), tgt), [], "compound-offset"))
             items.append((G.Bin("+", Q.Qty("1", src), Q.Qty("2", tgt)), [], "compound-offset-add"))
+        # asymmetric shapes: a LONE temperature unit on one side, on the other side an offset scale
+        # multiplied with co-factors that cancel (m/ft, min/s): the two sides disagree on "stands alone"
+        bydim = {}
+        for w in v.plain_words:
+            if w[0] == "" and w[2] in ("Meter", "Second") or (w[0] == "" and sum(abs(x) for x in w[4]) == 1):
+                bydim.setdefault(w[4], []).append(w)
+        cof = [ws for ws in bydim.values() if len(ws) >= 2]
+        lone = [[(k, 1)] for k in kel[:1]] + [[(w, 1)] for w in aff]
+        for _ in range(200 if tier == "quick" else 3000):
+            ws = rng.choice(cof)
+            a, b = rng.choice(ws), rng.choice(ws)
+            if a[2] == b[2] and a[3] == b[3]:
+                continue
+            comp = [(rng.choice(aff), 1), (a, 1), (b, -1)]
+            single = rng.choice(lone)
+            x = Q.small_value(rng)
+            items.append((Q.Cast(Q.Qty(x, single), comp), [], "offset-asym-target"))
+            items.append((Q.Cast(Q.Qty(x, comp), single), [], "offset-asym-source"))
+            items.append((G.Bin(rng.choice("+-"), Q.Qty(x, comp), Q.Qty("300", single)), [], "offset-asym-add"))
+            items.append((G.Bin(rng.choice("+-"), Q.Qty("300", single), Q.Qty(x, comp)), [], "offset-asym-add"))
         return q_cases(items)
 
 
@@ -333,6 +356,7 @@ class C13(_OffsetLaws, QProp):
     """Theorems (Props/C13.lean): `+ - * /` on proportional quantities refine the specification's SI operations, hence commutativity, associativity, distributivity, a-a = 0, a/a = 1 for the evaluator's results; products stay proportional; every shipped fact is in scope (kernel check over the regenerated facts table). Offset scales excluded (recorded finding). Correspondence: both sides of every law on literals and shipped facts, all pairs of units in both orders, a reference-driven pair sweep."""
     id = "C13"
     module = "Anything.Props.C13"
+    extra_modules = ["Anything.Props.QuantityQuery"]
     needs_db_tables = True
     compare_unit = False
     trusted = ["Spec.SI over the extracted table", "facts are read through the real database lookup"]
@@ -429,6 +453,7 @@ def load_facts(k, rng):
         if not tokens or not all(w.isascii() and w.isalpha() and w != "to" for w in words.split()):
             continue
         cands.append(words)
+    cands = sorted(set(cands))   # two facts may carry the same words
     picks = []
     seen = set()
     while cands and len(picks) < k * 3 and len(seen) < len(cands):
